@@ -2,9 +2,10 @@
    hypothesis of the C19 theorems holds -- the Examples beside the theorems -- and the witness that
    refutes the concat clause for --version 2.  The same archive is replayed against the real tool
    (corpus/C19/ex-*.case). *)
-From GoCar Require Import Bytes Varint Cid Header Frame V2Header Scan Index Store Traversal CliCmds.
+From Coq Require Import Sorting.Permutation.
+From GoCar Require Import Bytes Varint Cid Header Frame V2Header Scan Index Store Traversal ExtractFs CliCmds.
 From GoCarProofs Require Import BytesFacts VarintFacts CidFacts HeaderFacts ScanFacts ScanTrunc ScanTruncV2 StoreInv
-  CliBase CliWalk CliProducers CliConcat CliFilter CliClosure CliTheorems CliGet CliAppend CliIndexFacts CliFull CliGetDag.
+  CliBase CliWalk CliProducers CliConcat CliFilter CliClosure CliTheorems CliGet CliAppend CliIndexFacts CliFull CliGetDag CliPipe.
 
 Definition hok_true : bytes -> bytes -> option bool := fun _ _ => Some true.
 
@@ -439,6 +440,56 @@ Proof.
     intros c' Hc'; cbn [map fst In] in Hc'; destruct Hc' as [<-|[<-|[<-|[]]]]; intros Hs; try reflexivity;
     vm_compute in Hs; discriminate.
 Qed.
+
+(* ---- round 6: a pipe on standard input, debug | compile, list --unixfs ------------------------------ *)
+Example ex_list_stdin :
+  list_car_stdin true hok_true dec_header_canon ex_v2 = (true, [kc1; kci; kc2; kc1]) /\
+  root_car_stdin true dec_header_canon ex_v2 = (true, ex_roots).
+Proof.
+  exact (list_stdin_valid hok_true dec_header_canon dec_header_pragma ex_hb ex_roots ex_bs ex_v2
+           ex_hdr_ok ex_blocks_ok ex_hashes_ok ex_valid_v2).
+Qed.
+
+(* before the fix *)
+Example ex_list_stdin_v1 : list_car_stdin false hok_true dec_header_canon ex_v1 = (true, [kc1; kci; kc2; kc1]).
+Proof.
+  exact (proj1 (list_stdin_v1 hok_true dec_header_canon dec_header_pragma ex_hb ex_roots ex_bs
+                  ex_hdr_ok ex_blocks_ok ex_hashes_ok ltac:(nlt))).
+Qed.
+
+Example ex_list_stdin_v2_refused :
+  list_car hok_true dec_header_canon ex_v2 = (true, [kc1; kci; kc2; kc1]) /\
+  list_car_stdin false hok_true dec_header_canon ex_v2 = (false, []) /\
+  root_car_stdin false dec_header_canon ex_v2 = (false, []).
+Proof.
+  destruct (list_stdin_v2_refused hok_true dec_header_canon dec_header_pragma ex_hb ex_roots ex_bs 0 0 7 0 []
+              ex_hdr_ok ex_blocks_ok ex_hashes_ok ltac:(nlt) ltac:(nlt) ltac:(nlt) ltac:(nlt)) as (H1 & _ & H3 & H4).
+  split; [exact H1|]. split; [exact H3|exact H4].
+Qed.
+
+(* compile's order is not determined; here the ascending-CID order of the executable model *)
+Example ex_compile :
+  let out := compile_out ex_roots (sort_blocks (first_occ ex_bs)) in
+  br_read_all hok_true dec_header_canon default_ropts out
+  = Ok (1, ex_roots, mkscan [(kci, [x69; x64]); (kc1, [x61]); (kc2, [x62; x63])] EEof) /\
+  verify_car hok_true dec_header_canon out = Ok tt.
+Proof.
+  destruct (compile_any_order hok_true dec_header_canon dec_header_pragma ex_roots ex_bs (sort_blocks (first_occ ex_bs))
+              ex_hdr_ok ex_blocks_ok ex_hashes_ok (sort_blocks_perm _)) as (H1 & _ & H3).
+  split; [exact H1|]. apply H3; [discriminate|vm_compute; reflexivity].
+Qed.
+
+Definition ex_utree : utree :=
+  UDir [([x61], UFile [x31]); ([x64], UDir [([x62], ULink [x61]); ([x63], UFile [])]); ([x65], UDir [])].
+Example ex_ulist :
+  ulist_roots [RRaw; RNode ex_utree]
+  = ([[x61]; [x64]; [x64; x2f; x62]; [x64; x2f; x63]; [x65]], true).
+Proof. reflexivity. Qed.
+Example ex_ulist_whole : snd (ulist_tree [] ex_utree) = true /\ length (fst (ulist_tree [] ex_utree)) = 5%nat.
+Proof. exact (ulist_whole ex_utree [] eq_refl). Qed.
+Example ex_ulist_missing :
+  ulist_roots [RNode (UDir [([x61], UFile []); ([x62], UMissing); ([x63], UFile [])])] = ([[x61]; [x62]], false).
+Proof. reflexivity. Qed.
 
 (* ---- the same bytes as the replayed corpus case ---------------------------------------------------- *)
 (* corpus/C19/ex-theorem-instances.case, cli-000005: the input file of `car index` and what the real
